@@ -427,7 +427,7 @@ class Agent(dbus.service.Object):
                         glib.source_remove(xfer.timeout_id)
                     xfer.timeout_id = glib.timeout_add(RX_XFER_TIMEOUT_MS, self._rx_progress_cancel, key)
 
-                    if xfer.got_end:
+                    if xfer.got_end is not None:
                         # the full range is known at least
                         full_idx = apiIntInterval.closed(0, xfer.got_end)
 
